@@ -1855,6 +1855,8 @@ class UTPM(Ring, RawAlgorithmsMixIn):
         """
 
         x = numpy.ravel(x)
+        if x.dtype.kind in 'iub':
+            x = x.astype(float)
 
         # generate directions
         N = x.size
